@@ -5,60 +5,71 @@ From PKO Require Import Base Owner Api Phase ObjectSet Deployment DeploymentProo
 From PKOCorr Require Import DeployCorr C08Corr.
 Import ListNotations.
 
+(** [dep_pass] / [to_archive] are the code as it is (the archive reconciler reads the ObjectSlices the next newer
+    revision references, commit f07b836); the getter as it was before is kept as [dep_pass_v0] / [to_archive_v0] with a
+    [_v0_refuted] theorem only. *)
+
 (** The archive decision (objectSetsToBeArchived) for EVERY chain of revisions of any length with any flags, whatever
     requests were made before and whichever fault is injected: a revision is named only if it has confirmed it is
     paused, is not archived, is not the newest, and a newer revision is Available or it is itself unavailable, has
-    reported controllerOf and controls nothing the next newer revision contains, as far as the getter sees it
-    ([seen_objects]: inline objects; with the repaired getter also the objects of the referenced ObjectSlices). *)
+    reported controllerOf and controls nothing the next newer revision contains (inline or in its ObjectSlices). *)
 Theorem C08_archive_kernel :
-  forall fault slices sliceaware L st mem st' mem' l,
-    to_archive fault slices sliceaware st mem (rev L) = (st', mem', l) ->
-    forall n, In n l -> archivable (seen_objects slices sliceaware) L n.
-Proof. exact archive_kernel_sound. Qed.
+  forall fault slices L st mem st' mem' l,
+    to_archive fault slices st mem (rev L) = (st', mem', l) ->
+    forall n, In n l -> archivable (full_objects slices) L n.
+Proof. exact (fun fault slices => archive_kernel_sound fault slices true). Qed.
 Print Assumptions C08_archive_kernel.
 
-(** Every SetArchived of a pass, in terms of the ObjectSets as listed before the pass. Repaired getter: the full rule. *)
+(** Every SetArchived of a pass, in terms of the ObjectSets as listed before the pass. *)
 Theorem C08_archive_sound :
-  forall hash fault slices rev0ok stale w w' evs r n pbp ur,
-    NoDup (map sname (dw_sets w)) -> dep_pass hash fault slices true rev0ok stale w = (w', evs, r) ->
+  forall hash fault slices stale w w' evs r n pbp ur,
+    NoDup (map sname (dw_sets w)) -> dep_pass hash fault slices stale w = (w', evs, r) ->
     In (DUpdate n LArchived pbp ur) evs -> archivable (full_objects slices) (listed stale w) n.
-Proof. exact archive_sound_repaired. Qed.
+Proof. exact archive_sound_now. Qed.
 Print Assumptions C08_archive_sound.
 
-(** The getter as it was (second half of F-C14): the rule holds for the inline objects of the next newer revision only ... *)
-Theorem C08_archive_sound_partial :
-  forall hash fault slices rev0ok stale w w' evs r n pbp ur,
-    NoDup (map sname (dw_sets w)) -> dep_pass hash fault slices false rev0ok stale w = (w', evs, r) ->
+(** Second half of F-C14, fixed by /repo commit f07b836: the getter as it was looked at the inline objects of the next
+    newer revision only, so the rule held for those ... *)
+Theorem C08_archive_sound_v0_partial :
+  forall hash fault slices stale w w' evs r n pbp ur,
+    NoDup (map sname (dw_sets w)) -> dep_pass_v0 hash fault slices stale w = (w', evs, r) ->
     In (DUpdate n LArchived pbp ur) evs -> archivable set_objects (listed stale w) n.
-Proof. exact archive_sound_inline. Qed.
-Print Assumptions C08_archive_sound_partial.
+Proof. exact archive_sound_v0_inline. Qed.
+Print Assumptions C08_archive_sound_v0_partial.
 
-(** ... and is violated when the next newer revision keeps the shared object in an ObjectSlice. *)
-Theorem C08_archive_sound_refuted :
+(** ... and was violated when the next newer revision kept the shared object in an ObjectSlice. *)
+Theorem C08_archive_sound_v0_refuted :
   exists w slices evs w' r n pbp r1 r2 k,
-    dep_pass wit_hash None slices false false false w = (w', evs, r) /\ In (DUpdate n LArchived pbp WOk) evs /\
+    dep_pass_v0 wit_hash None slices false w = (w', evs, r) /\ In (DUpdate n LArchived pbp WOk) evs /\
     listed false w = [r1; r2] /\ sname r1 = n /\ In k (os_ctrlof (ds_set r1)) /\ In k (full_objects slices r2) /\
     is_available r2 = false /\ ~ archivable (full_objects slices) (listed false w) n.
-Proof. exact archive_sound_refuted. Qed.
-Print Assumptions C08_archive_sound_refuted.
+Proof. exact archive_sound_v0_refuted. Qed.
+Print Assumptions C08_archive_sound_v0_refuted.
+
+(** Without slice references in the chain both shapes of the archive decision coincide. *)
+Theorem C08_archive_v0_agrees :
+  forall fault slices rl st mem,
+    (forall s, In s rl -> slice_refs s = []) -> to_archive fault slices st mem rl = to_archive_v0 fault slices st mem rl.
+Proof. exact to_archive_v0_agrees. Qed.
+Print Assumptions C08_archive_v0_agrees.
 
 (** The newest revision is never archived ... *)
 Theorem C08_newest_never :
-  forall hash fault slices sliceaware rev0ok stale w w' evs r n pbp ur,
-    NoDup (map sname (dw_sets w)) -> dep_pass hash fault slices sliceaware rev0ok stale w = (w', evs, r) ->
+  forall hash fault slices stale w w' evs r n pbp ur,
+    NoDup (map sname (dw_sets w)) -> dep_pass hash fault slices stale w = (w', evs, r) ->
     In (DUpdate n LArchived pbp ur) evs -> exists l0 newest, listed stale w = l0 ++ [newest] /\ sname newest <> n.
-Proof. exact newest_never_archived. Qed.
+Proof. exact (fun hash fault slices => newest_never_archived hash fault slices true true). Qed.
 Print Assumptions C08_newest_never.
 
 (** ... and history pruning deletes only among the first max(0, |previous| - limit) previous revisions in ascending
     revision order, for every limit; never the current one. *)
 Theorem C08_gc :
-  forall hash fault slices sliceaware rev0ok stale w w' evs r n dr,
-    NoDup (map sname (dw_sets w)) -> dep_pass hash fault slices sliceaware rev0ok stale w = (w', evs, r) -> In (DDelete n dr) evs ->
+  forall hash fault slices stale w w' evs r n dr,
+    NoDup (map sname (dw_sets w)) -> dep_pass hash fault slices stale w = (w', evs, r) -> In (DDelete n dr) evs ->
     exists l0 newest, listed stale w = l0 ++ [newest] /\
       In n (firstn (Z.to_nat (Z.of_nat (length l0) - match d_limit (dw_dep w) with Some l => l | None => 10 end)) (map sname l0)) /\
       sname newest <> n.
-Proof. exact gc_sound. Qed.
+Proof. exact (fun hash fault slices => gc_sound hash fault slices true true). Qed.
 Print Assumptions C08_gc.
 
 (** One pruning round without faults deletes exactly these, oldest first. *)
@@ -73,17 +84,17 @@ Print Assumptions C08_gc_exact.
 (** Every request of a pass is justified by the world before it (creates, pause/unpause, pause for archival,
     archival, pruning deletes, status). *)
 Theorem C08_every_request_justified :
-  forall hash fault slices sliceaware rev0ok stale w w' evs r,
-    NoDup (map sname (dw_sets w)) -> dep_pass hash fault slices sliceaware rev0ok stale w = (w', evs, r) ->
-    Forall (justified hash slices sliceaware stale w) evs.
-Proof. exact dep_pass_justified. Qed.
+  forall hash fault slices stale w w' evs r,
+    NoDup (map sname (dw_sets w)) -> dep_pass hash fault slices stale w = (w', evs, r) ->
+    Forall (justified hash slices true stale w) evs.
+Proof. exact (fun hash fault slices => dep_pass_justified hash fault slices true true). Qed.
 Print Assumptions C08_every_request_justified.
 
 (** The deployment controller never touches a member object; ObjectSets keep name, revision, previous list, labels,
     hash annotation, controller and spec; only ObjectSets named in a pruning delete disappear. *)
 Theorem C08_pass_frame :
-  forall hash fault slices sliceaware rev0ok stale w w' evs r,
-    dep_pass hash fault slices sliceaware rev0ok stale w = (w', evs, r) ->
+  forall hash fault slices stale w w' evs r,
+    dep_pass hash fault slices stale w = (w', evs, r) ->
     (NoDup (map sname (dw_sets w)) -> NoDup (map sname (dw_sets w'))) /\
     (forall x', In x' (dw_sets w') -> (exists x, In x (dw_sets w) /\ sid x' = sid x) \/ created evs x') /\
     (forall x, In x (dw_sets w) -> (forall dr, ~ In (DDelete (sname x) dr) evs) ->
@@ -94,7 +105,7 @@ Theorem C08_pass_frame :
     (d_id (dw_dep w') = d_id (dw_dep w) /\ d_gen (dw_dep w') = d_gen (dw_dep w) /\ d_paused (dw_dep w') = d_paused (dw_dep w) /\
      d_digest (dw_dep w') = d_digest (dw_dep w) /\ d_phases (dw_dep w') = d_phases (dw_dep w) /\ d_limit (dw_dep w') = d_limit (dw_dep w) /\
      (d_cc (dw_dep w') = d_cc (dw_dep w) \/ exists h cs rv co sr, In (DStatus h (d_cc (dw_dep w')) cs rv co sr) evs)).
-Proof. exact dep_pass_frame. Qed.
+Proof. exact (fun hash fault slices => dep_pass_frame hash fault slices true true). Qed.
 Print Assumptions C08_pass_frame.
 
 (** Handover, system level, PARTIAL: a pass of the ObjectSet controller for a revision that is archived (or deleted)
@@ -106,92 +117,91 @@ Print Assumptions C08_pass_frame.
     it is torn down (r's last paused pass computed controllerOf from the cache, and a paused r acquires no object,
     C09_paused_hands_off); it is checked on whole-system runs of the real controllers instead (C08Corr.m08_shared). *)
 Theorem C08_handover_partial :
-  forall force hash slices sliceaware rev0ok w n mem k o,
+  forall force hash slices w n mem k o,
     find_set (sw_sets (to_sworld w)) (set_kind w) (oi_ns (d_id (dw_dep w))) n = Some mem ->
     (os_deleting mem = true \/ os_life mem = LArchived) ->
     lookup k (w_store (dw_w w)) = Some o ->
     is_owner Native (os_id mem) o = false -> is_controller Native (os_id mem) o = false ->
-    lookup k (w_store (dw_w (do_step hash slices sliceaware rev0ok w (SSet force n)))) = Some o.
-Proof. exact going_pass_foreign. Qed.
+    lookup k (w_store (dw_w (do_step hash slices w (SSet force n)))) = Some o.
+Proof. exact (fun force hash slices => going_pass_foreign force hash slices true true). Qed.
 Print Assumptions C08_handover_partial.
 
 (** C09, deployment level: a paused deployment only pauses non-archived revisions that are not paused by it yet and
     writes its status: no create, no archival, no delete, no collision bump ... *)
 Theorem C09_deployment_paused :
-  forall hash fault slices sliceaware rev0ok stale w w' evs r e,
-    NoDup (map sname (dw_sets w)) -> dep_pass hash fault slices sliceaware rev0ok stale w = (w', evs, r) ->
+  forall hash fault slices stale w w' evs r e,
+    NoDup (map sname (dw_sets w)) -> dep_pass hash fault slices stale w = (w', evs, r) ->
     d_paused (dw_dep w) = true -> In e evs ->
     (exists n ur s, e = DUpdate n LPaused true ur /\ In s (listed stale w) /\ sname s = n /\ is_archived s = false /\ paused_by_parent s = false) \/
     (exists h cc cs rv co sr, e = DStatus h cc cs rv co sr /\ cc = d_cc (dw_dep w)).
-Proof. exact paused_hands_off. Qed.
+Proof. exact (fun hash fault slices => paused_hands_off hash fault slices true true). Qed.
 Print Assumptions C09_deployment_paused.
 
 (** ... exactly those, in list order, when no request fails and every revision has reported its number. *)
 Theorem C09_deployment_paused_exact :
-  forall hash slices sliceaware rev0ok stale w w' evs r,
+  forall hash slices stale w w' evs r,
     NoDup (map sname (dw_sets w)) -> d_paused (dw_dep w) = true -> has_rev0 (listed stale w) = false ->
-    dep_pass hash None slices sliceaware rev0ok stale w = (w', evs, r) ->
+    dep_pass hash None slices stale w = (w', evs, r) ->
     r = DpDone /\ exists h cc cs rv co,
       evs = map (pause_update true) (filter (needs_pause_update true) (listed stale w)) ++ [DStatus h cc cs rv co WOk].
-Proof. exact paused_pass_exact. Qed.
+Proof. exact (fun hash slices => paused_pass_exact hash slices true true). Qed.
 Print Assumptions C09_deployment_paused_exact.
 
 (** Unpausing releases exactly the non-archived revisions that are paused and carry the paused-by-parent annotation. *)
 Theorem C09_unpause_sound :
-  forall hash fault slices sliceaware rev0ok stale w w' evs r n pbp ur,
-    NoDup (map sname (dw_sets w)) -> dep_pass hash fault slices sliceaware rev0ok stale w = (w', evs, r) ->
+  forall hash fault slices stale w w' evs r n pbp ur,
+    NoDup (map sname (dw_sets w)) -> dep_pass hash fault slices stale w = (w', evs, r) ->
     In (DUpdate n LActive pbp ur) evs ->
     d_paused (dw_dep w) = false /\ pbp = false /\
     exists s, In s (listed stale w) /\ sname s = n /\ is_archived s = false /\ is_spec_paused s = true /\ ds_pbp s = true.
-Proof. exact unpause_releases_annotated. Qed.
+Proof. exact (fun hash fault slices => unpause_releases_annotated hash fault slices true true). Qed.
 Print Assumptions C09_unpause_sound.
 
 Theorem C09_unpause_exact :
-  forall hash slices sliceaware rev0ok stale w w' evs r,
+  forall hash slices stale w w' evs r,
     NoDup (map sname (dw_sets w)) -> d_paused (dw_dep w) = false -> has_rev0 (listed stale w) = false ->
-    dep_pass hash None slices sliceaware rev0ok stale w = (w', evs, r) ->
+    dep_pass hash None slices stale w = (w', evs, r) ->
     exists rest, evs = map (pause_update false) (filter (needs_pause_update false) (listed stale w)) ++ rest /\
                  forall n life pbp ur, In (DUpdate n life pbp ur) rest -> life <> LActive.
-Proof. exact unpause_exact. Qed.
+Proof. exact (fun hash slices => unpause_exact hash slices true true). Qed.
 Print Assumptions C09_unpause_exact.
 
 (** Observation (outside the property text, which only fixes WHICH revisions pruning may delete): pruning counts
     all previous revisions, archived or not; with limit 1, archiving the broken revision 2 deletes revision 1, which is
     Available and not archived, while the current revision 3 is not Available. *)
 Theorem C08_pruning_deletes_available_revision_witness :
-  let '(_, evs, _) := dep_pass wit_hash None no_slices false false false wit_gc_world in
+  let '(_, evs, _) := dep_pass wit_hash None no_slices false wit_gc_world in
   existsb (fun e => match e with DDelete 100 DlOk => true | _ => false end) evs = true /\
   existsb (fun e => match e with DUpdate 200 LArchived _ WOk => true | _ => false end) evs = true.
 Proof. exact wit_gc_deletes_available. Qed.
 Print Assumptions C08_pruning_deletes_available_revision_witness.
 
-(** The archive and pruning monitors of the correspondence check accept every pass of the model (fresh List;
-    archive rule: repaired getter). *)
+(** The archive and pruning monitors of the correspondence check accept every pass of the model (fresh List). *)
 Theorem C08_monitor_sound_archive :
-  forall hash fault slices rev0ok w w' evs r,
-    NoDup (map sname (dw_sets w)) -> dep_pass hash fault slices true rev0ok false w = (w', evs, r) ->
+  forall hash fault slices w w' evs r,
+    NoDup (map sname (dw_sets w)) -> dep_pass hash fault slices false w = (w', evs, r) ->
     m08_archive slices (state_of w) (SDep false fault) (obs_of w' evs r) = true.
 Proof. exact monitor_sound_archive. Qed.
 Print Assumptions C08_monitor_sound_archive.
 
 Theorem C08_monitor_sound_gc :
-  forall hash fault slices sliceaware rev0ok w w' evs r,
-    NoDup (map sname (dw_sets w)) -> dep_pass hash fault slices sliceaware rev0ok false w = (w', evs, r) ->
+  forall hash fault slices w w' evs r,
+    NoDup (map sname (dw_sets w)) -> dep_pass hash fault slices false w = (w', evs, r) ->
     m08_gc (state_of w) (SDep false fault) (obs_of w' evs r) = true.
 Proof. exact monitor_sound_gc. Qed.
 Print Assumptions C08_monitor_sound_gc.
 
 (** Non-vacuity. *)
 Example C08_archive_happens :
-  let '(_, evs, _) := dep_pass wit_hash None wit_slices false false false wit_sliced_world in
-  existsb (fun e => match e with DUpdate 300 LArchived _ WOk => true | _ => false end) evs = true.
+  let '(_, evs, _) := dep_pass wit_hash None no_slices false wit_gc_world in
+  existsb (fun e => match e with DUpdate 200 LArchived _ WOk => true | _ => false end) evs = true.
 Proof. vm_compute. reflexivity. Qed.
 Print Assumptions C08_archive_happens.
-Example C08_repaired_getter_refuses :
-  let '(_, evs, _) := dep_pass wit_hash None wit_slices true false false wit_sliced_world in
+Example C08_sliced_revision_not_archived :
+  let '(_, evs, _) := dep_pass wit_hash None wit_slices false wit_sliced_world in
   existsb (fun e => match e with DUpdate _ LArchived _ _ => true | _ => false end) evs = false.
 Proof. exact wit_sliced_archive_repaired. Qed.
-Print Assumptions C08_repaired_getter_refuses.
+Print Assumptions C08_sliced_revision_not_archived.
 Example C08_names_unique : NoDup (map sname (dw_sets wit_gc_world)).
 Proof. vm_compute. repeat constructor; cbn; intuition discriminate. Qed.
 Print Assumptions C08_names_unique.
